@@ -1,8 +1,10 @@
 From Bifrost Require Import Lib.Base Link.Model Link.Maps Dial.Model.
 
-(* success only with a link to the requested peer, registered at the address *)
-Theorem dial_peer_safe s x a who p s' :
-  x <> 0 -> dial_peer s x a who = (DLink p, s') -> p = x /\ aget a s' = Some x /\ who = Peer x.
+(* a = dial string, ra = resolved address (table key); all theorems hold for any pair *)
+
+(* success only with a link to the requested peer, registered at the resolved address *)
+Theorem dial_peer_safe s x a ra who p s' :
+  x <> 0 -> dial_peer s x a ra who = (DLink p, s') -> p = x /\ aget ra s' = Some x /\ who = Peer x.
 Proof.
   intros Hx. unfold dial_peer. destruct (aget a s) as [q|].
   - destruct (Z.eqb q x); discriminate.
@@ -12,9 +14,9 @@ Proof.
     intros H; inversion H; subst. rewrite aget_aset, Z.eqb_refl. auto.
 Qed.
 
-(* "already connected" is only reported when the link at the address is to x *)
-Theorem dial_peer_nolink s x a who s' :
-  dial_peer s x a who = (DNoLink, s') -> s' = s /\ aget a s = Some x.
+(* "already connected" is only reported when the link found under the dial string is to x *)
+Theorem dial_peer_nolink s x a ra who s' :
+  dial_peer s x a ra who = (DNoLink, s') -> s' = s /\ aget a s = Some x.
 Proof.
   unfold dial_peer. destruct (aget a s) as [q|] eqn:E.
   - destruct (Z.eqb_spec q x) as [->|]; [|discriminate]. intros H; inversion H; auto.
@@ -22,9 +24,9 @@ Proof.
 Qed.
 
 (* a different peer answering is an error, never a link to x *)
-Theorem dial_peer_impostor s x a i :
-  x <> 0 -> i <> x -> fst (dial_peer s x a (Peer i)) <> DLink x /\
-  (aget a s = None -> fst (dial_peer s x a (Peer i)) = DErr).
+Theorem dial_peer_impostor s x a ra i :
+  x <> 0 -> i <> x -> fst (dial_peer s x a ra (Peer i)) <> DLink x /\
+  (aget a s = None -> fst (dial_peer s x a ra (Peer i)) = DErr).
 Proof.
   intros Hx Hi. unfold dial_peer. destruct (aget a s) as [q|].
   - split; [|discriminate]. destruct (Z.eqb q x); cbn; discriminate.
@@ -32,87 +34,136 @@ Proof.
     cbn. split; [discriminate|reflexivity].
 Qed.
 
-Theorem calls_safe : forall e s x a rs s', x <> 0 ->
-  calls s x a e = (rs, s') -> forall p, In (DLink p) rs -> p = x.
+Theorem calls_safe : forall e s x a ra rs s', x <> 0 ->
+  calls s x a ra e = (rs, s') -> forall p, In (DLink p) rs -> p = x.
 Proof.
-  induction e as [|ev e IH]; intros s x a rs s' Hx; cbn [calls].
+  induction e as [|ev e IH]; intros s x a ra rs s' Hx; cbn [calls].
   - intros H; inversion H; subst. intros p [].
   - destruct ev as [who|]; [|apply IH; exact Hx].
-    destruct (dial_peer s x a who) as [r s1] eqn:Ed.
-    destruct (calls s1 x a e) as [rs1 s2] eqn:Ec.
+    destruct (dial_peer s x a ra who) as [r s1] eqn:Ed.
+    destruct (calls s1 x a ra e) as [rs1 s2] eqn:Ec.
     intros H; inversion H; subst. intros p [Hp|Hp].
-    + subst r. apply (dial_peer_safe _ _ _ _ _ _ Hx) in Ed. tauto.
+    + subst r. apply (dial_peer_safe _ _ _ _ _ _ _ Hx) in Ed. tauto.
     + eapply IH; eauto.
 Qed.
 
 (* the controller's link dialer never holds a link to another peer *)
-Theorem dialer_loop_safe : forall e s x a r s', x <> 0 ->
-  dialer_loop s x a e = (r, s') -> forall p, dialer_link r = Some p -> p = x /\ aget a s' = Some x.
+Theorem dialer_loop_safe : forall e s x a ra r s', x <> 0 ->
+  dialer_loop s x a ra e = (r, s') -> forall p, dialer_link r = Some p -> p = x /\ aget ra s' = Some x.
 Proof.
-  induction e as [|ev e IH]; intros s x a r s' Hx; cbn [dialer_loop].
+  induction e as [|ev e IH]; intros s x a ra r s' Hx; cbn [dialer_loop].
   - intros H; inversion H; subst. discriminate.
   - destruct ev as [who|]; [|apply IH; exact Hx].
-    destruct (dial_peer s x a who) as [d s1] eqn:Ed. destruct d as [q| |].
+    destruct (dial_peer s x a ra who) as [d s1] eqn:Ed. destruct d as [q| |].
     + intros H; inversion H; subst. cbn. intros p Hp; inversion Hp; subst.
-      apply (dial_peer_safe _ _ _ _ _ _ Hx) in Ed. tauto.
+      apply (dial_peer_safe _ _ _ _ _ _ _ Hx) in Ed. tauto.
     + intros H; inversion H; subst. discriminate.
     + apply IH; exact Hx.
 Qed.
 
-(* whenever the loop ends, a link to x is registered at the address *)
-Theorem dialer_loop_done : forall e s x a d s', x <> 0 ->
-  dialer_loop s x a e = (Some d, s') -> aget a s' = Some x /\ (d = DLink x \/ d = DNoLink).
+(* whenever the loop ends, a link to x is registered *)
+Theorem dialer_loop_done : forall e s x a ra d s', x <> 0 ->
+  dialer_loop s x a ra e = (Some d, s') ->
+  (d = DLink x /\ aget ra s' = Some x) \/ (d = DNoLink /\ aget a s' = Some x).
 Proof.
-  induction e as [|ev e IH]; intros s x a d s' Hx; cbn [dialer_loop]; [discriminate|].
+  induction e as [|ev e IH]; intros s x a ra d s' Hx; cbn [dialer_loop]; [discriminate|].
   destruct ev as [who|]; [|apply IH; exact Hx].
-  destruct (dial_peer s x a who) as [r s1] eqn:Ed. destruct r as [q| |].
-  - intros H; inversion H; subst. apply (dial_peer_safe _ _ _ _ _ _ Hx) in Ed as (-> & ? & _). auto.
+  destruct (dial_peer s x a ra who) as [r s1] eqn:Ed. destruct r as [q| |].
+  - intros H; inversion H; subst. apply (dial_peer_safe _ _ _ _ _ _ _ Hx) in Ed as (-> & ? & _). auto.
   - intros H; inversion H; subst. apply dial_peer_nolink in Ed as [-> ?]. auto.
   - apply IH; exact Hx.
 Qed.
 
-Lemma dialer_loop_app : forall pre s x a post,
-  dialer_loop s x a (pre ++ post) =
-  match dialer_loop s x a pre with
-  | (None, s1) => dialer_loop s1 x a post
+Lemma dialer_loop_app : forall pre s x a ra post,
+  dialer_loop s x a ra (pre ++ post) =
+  match dialer_loop s x a ra pre with
+  | (None, s1) => dialer_loop s1 x a ra post
   | r => r
   end.
 Proof.
-  induction pre as [|ev pre IH]; intros s x a post; [reflexivity|].
+  induction pre as [|ev pre IH]; intros s x a ra post; [reflexivity|].
   cbn [app dialer_loop]. destruct ev as [who|]; [|apply IH].
-  destruct (dial_peer s x a who) as [r s1]. destruct r; try reflexivity. apply IH.
+  destruct (dial_peer s x a ra who) as [r s1]. destruct r; try reflexivity. apply IH.
+Qed.
+
+(* the links table only has resolved addresses as keys: under an alias dial
+   string nothing is ever found *)
+Definition alias_clean (s : amap Z) (a ra : Z) : Prop := a <> ra -> aget a s = None.
+
+Lemma dial_peer_alias_clean s x a ra who :
+  alias_clean s a ra -> alias_clean (snd (dial_peer s x a ra who)) a ra.
+Proof.
+  intros H Hne. specialize (H Hne). unfold dial_peer. rewrite H.
+  destruct who as [|p]; [exact H|]. destruct (_ && _); cbn [snd]; rewrite aget_aset;
+    destruct (Z.eqb_spec a ra); try contradiction; exact H.
+Qed.
+
+Lemma dialer_loop_alias_clean : forall e s x a ra r s',
+  alias_clean s a ra -> dialer_loop s x a ra e = (r, s') -> alias_clean s' a ra.
+Proof.
+  induction e as [|ev e IH]; intros s x a ra r s' Hc; cbn [dialer_loop].
+  - intros H; inversion H; subst; exact Hc.
+  - destruct ev as [who|].
+    + pose proof (dial_peer_alias_clean s x a ra who Hc) as Hc'.
+      destruct (dial_peer s x a ra who) as [d s1]. cbn [snd] in Hc'. destruct d.
+      * intros H; inversion H; subst; exact Hc'.
+      * intros H; inversion H; subst; exact Hc'.
+      * eapply IH; exact Hc'.
+    + apply IH. intros Hne. rewrite aget_adel. destruct (Z.eqb a ra); [reflexivity|exact (Hc Hne)].
 Qed.
 
 (* once the stale link (if any) is gone and x answers, the next attempt succeeds *)
-Theorem retry_succeeds s x a e' :
-  x <> 0 ->
-  dialer_loop s x a (Drop :: Attempt (Peer x) :: e') = (Some (DLink x), aset a x (adel a s)).
+Theorem retry_succeeds s x a ra e' :
+  x <> 0 -> alias_clean s a ra ->
+  dialer_loop s x a ra (Drop :: Attempt (Peer x) :: e') = (Some (DLink x), aset ra x (adel ra s)).
 Proof.
-  intros Hx. cbn [dialer_loop]. unfold dial_peer. rewrite aget_adel, Z.eqb_refl.
-  destruct (Z.eqb_spec x 0); [contradiction|]. rewrite Z.eqb_refl. reflexivity.
+  intros Hx Hc. cbn [dialer_loop]. unfold dial_peer.
+  assert (E : aget a (adel ra s) = None).
+  { rewrite aget_adel. destruct (Z.eqb_spec a ra); [reflexivity|exact (Hc n)]. }
+  rewrite E. destruct (Z.eqb_spec x 0); [contradiction|]. rewrite Z.eqb_refl. reflexivity.
 Qed.
 
 (* liveness of the retry loop: whatever happened before (impostors answering,
    nobody answering, links coming and going, in any number and order), if the
    loop is still running when the address becomes free and x answers, it ends
    with a link to x; and if it ended earlier it ended with a link to x too *)
-Theorem retry_reaches_x s x a mid e' :
-  x <> 0 ->
-  exists d s', dialer_loop s x a (mid ++ Drop :: Attempt (Peer x) :: e') = (Some d, s')
-               /\ aget a s' = Some x /\ (d = DLink x \/ d = DNoLink).
+Theorem retry_reaches_x s x a ra mid e' :
+  x <> 0 -> alias_clean s a ra ->
+  exists d s', dialer_loop s x a ra (mid ++ Drop :: Attempt (Peer x) :: e') = (Some d, s')
+               /\ ((d = DLink x /\ aget ra s' = Some x) \/ (d = DNoLink /\ aget a s' = Some x)).
 Proof.
-  intros Hx. rewrite dialer_loop_app.
-  destruct (dialer_loop s x a mid) as [[d|] s1] eqn:E.
+  intros Hx Hc. rewrite dialer_loop_app.
+  destruct (dialer_loop s x a ra mid) as [[d|] s1] eqn:E.
   - exists d, s1. split; [reflexivity|]. eapply dialer_loop_done; eauto.
-  - rewrite retry_succeeds by exact Hx. eexists _, _. split; [reflexivity|].
-    rewrite aget_aset, Z.eqb_refl. auto.
+  - rewrite retry_succeeds; [|exact Hx|eapply dialer_loop_alias_clean; eauto].
+    eexists _, _. split; [reflexivity|]. left. rewrite aget_aset, Z.eqb_refl. auto.
 Qed.
 
-(* without a loss of the impostor's link the loop keeps retrying: the address
-   is reported as connected to a different peer *)
+(* under an alias dial string nothing blocks the dial: as soon as x answers the
+   very next attempt yields the link to x (the impostor's link is usurped) *)
+Theorem alias_retry_reaches_x s x a ra mid e' :
+  x <> 0 -> a <> ra -> aget a s = None ->
+  exists s', dialer_loop s x a ra (mid ++ Attempt (Peer x) :: e') = (Some (DLink x), s')
+             /\ aget ra s' = Some x.
+Proof.
+  intros Hx Hne Hs. rewrite dialer_loop_app.
+  assert (Hc : alias_clean s a ra) by (intros _; exact Hs).
+  destruct (dialer_loop s x a ra mid) as [[d|] s1] eqn:E.
+  - pose proof (dialer_loop_alias_clean _ _ _ _ _ _ _ Hc E Hne) as Hc1.
+    destruct (dialer_loop_done _ _ _ _ _ _ _ Hx E) as [[-> H]|[-> H]].
+    + eauto.
+    + congruence.
+  - pose proof (dialer_loop_alias_clean _ _ _ _ _ _ _ Hc E Hne) as Hc1.
+    cbn [dialer_loop]. unfold dial_peer. rewrite Hc1.
+    destruct (Z.eqb_spec x 0); [contradiction|]. rewrite Z.eqb_refl. cbn.
+    eexists. split; [reflexivity|]. rewrite aget_aset, Z.eqb_refl. reflexivity.
+Qed.
+
+(* with a canonical address, until the impostor's link is lost the loop keeps
+   retrying: the address is reported as connected to a different peer *)
 Theorem impostor_blocks_until_lost s x a i n :
   x <> 0 -> i <> x -> aget a s = None ->
-  dialer_loop s x a (Attempt (Peer i) :: repeat (Attempt (Peer x)) n) = (None, aset a i s).
+  dialer_loop s x a a (Attempt (Peer i) :: repeat (Attempt (Peer x)) n) = (None, aset a i s).
 Proof.
   intros Hx Hi Hs. cbn [dialer_loop]. unfold dial_peer at 1. rewrite Hs.
   destruct (Z.eqb_spec x 0); [contradiction|]. destruct (Z.eqb_spec i x); [contradiction|]. cbn [negb andb].
